@@ -284,7 +284,3 @@ def shipped_orders(ctx, out, rng):
 def search(ctx):
     return run(ctx)
 
-
-def replay(ctx, path):
-    print(open(path).read()[:4000])
-    return 0
